@@ -161,9 +161,13 @@ impl Store {
     #[verifier::external_body]
     pub fn insert_frame(&self, Tracked(ax): Tracked<&mut Ax>, f: &Frame) -> (r: Result<(), Error>)
         ensures final(ax).body == old(ax).body, final(ax).written == old(ax).written,
-            r is Ok ==> final(ax).log == old(ax).log.push(AxEv::InsertFrame(*f)),
+            // (proved of the real insert_frame in unit store_ops: stored as is; a registration frame in the zero context registers its context)
+            r is Ok ==> final(ax).log == old(ax).log.push(AxEv::InsertFrame(*f)) + import_reg_events(f),
             r is Err ==> final(ax).log == old(ax).log,
     { unimplemented!() }
+}
+pub open spec fn import_reg_events(f: &Frame) -> Seq<AxEv> {
+    if f.topic@ == "xs.context"@ && id_u128(f.context_id) == 0 { seq![AxEv::RegisterCtx(id_u128(f.id))] } else { Seq::<AxEv>::empty() }
 }
 // HTTP responses: only the status class matters here
 pub enum Resp { Ok200, BadRequest400, NotFound404, Other }
@@ -321,7 +325,7 @@ fn import_parse_and_insert(store: &Store, bytes: Bytes, Tracked(ax): Tracked<&mu
         // undecodable JSON: 400, nothing stored (C13, C20 "rejected whole")
         decode_frame(bytes_of(&bytes)) is None ==> r == Ok::<Resp, Error>(Resp::BadRequest400) && final(ax).log == old(ax).log, //# api.import.bad_json_rejected
         // a decodable frame is stored as is: same id, topic, context, hash, meta, ttl; no append (no id rewrite, no broadcast, no GC) (C20)
-        r == Ok::<Resp, Error>(Resp::Ok200) ==> (decode_frame(bytes_of(&bytes)) matches Some(f) && final(ax).log == old(ax).log.push(AxEv::InsertFrame(f))), //# api.import.stored_as_is
+        r == Ok::<Resp, Error>(Resp::Ok200) ==> (decode_frame(bytes_of(&bytes)) matches Some(f) && final(ax).log == old(ax).log.push(AxEv::InsertFrame(f)) + import_reg_events(&f)), //# api.import.stored_as_is
         r is Err ==> final(ax).log == old(ax).log, //# api.import.error_no_effect
         // insert_frame's preconditions for keeping lookups consistent (see store_ops): the call site must establish them
         // P1: an ephemeral frame is never stored (C09)
@@ -331,9 +335,9 @@ fn import_parse_and_insert(store: &Store, bytes: Bytes, Tracked(ax): Tracked<&mu
         // P2: an id already in the store keeps its (topic, context), otherwise a stale index entry stays behind (C05, C06)
         r == Ok::<Resp, Error>(Resp::Ok200) ==> (decode_frame(bytes_of(&bytes)) matches Some(f) && (old(ax).stored.contains_key(id_u128(f.id))
             ==> old(ax).stored[id_u128(f.id)] == (f.topic@, id_u128(f.context_id)))), //# api.import.pre.P2_same_id_same_topic_and_context
-        // P4: an imported xs.context frame registers its context (the usable contexts are a function of the stored frames, C07)
-        r == Ok::<Resp, Error>(Resp::Ok200) ==> (decode_frame(bytes_of(&bytes)) matches Some(f) && (is_ctx_topic(&f)
-            ==> exists|i: int| old(ax).log.len() <= i < final(ax).log.len() && final(ax).log[i] == AxEv::RegisterCtx(id_u128(f.id)))), //# api.import.pre.P4_registers_context
+        // P4: an imported registration frame (xs.context in the zero context) registers its context (the usable contexts are a function of the stored frames, C07)
+        r == Ok::<Resp, Error>(Resp::Ok200) ==> (decode_frame(bytes_of(&bytes)) matches Some(f) && (is_ctx_topic(&f) && id_u128(f.context_id) == 0
+            ==> final(ax).log.len() > old(ax).log.len() && final(ax).log.last() == AxEv::RegisterCtx(id_u128(f.id)))), //# api.import.pre.P4_registers_context
 {
     proof { axiom_fmt_req(); }
 //@@ epilogue
